@@ -388,10 +388,6 @@ func init() {
 	reg("("+sdkT+".AccAddress).Empty", func(cc *CallCtx, a []Value) []Outcome {
 		return ret1(Eq(Len(a[0].(*BytesV).T), MkI(0)))
 	})
-	reg("("+sdkT+".AccAddress).Equals", func(cc *CallCtx, a []Value) []Outcome {
-		throwf("AccAddress.Equals")
-		return nil
-	})
 	reg("("+sdkT+".AccAddress).Bytes", func(cc *CallCtx, a []Value) []Outcome { return ret1(a[0]) })
 	reg(sdkT+".VerifyAddressFormat", func(cc *CallCtx, a []Value) []Outcome {
 		b := a[0].(*BytesV)
